@@ -712,6 +712,31 @@ def install(T: Theory):
         T.externals[f'{mod}.arctan2'] = elementwise(f_arctan2, 'arctan2')
         T.externals[f'{mod}.round'] = elementwise(f_round, 'round')
     T.externals['jax.numpy.vdot'] = elementwise(f_vdot, 'vdot')
+    # piecewise element-wise functions (exact over the reals) and the constant pi (an uninterpreted real constant)
+    PI = z3.Real('pi')
+    for mod in ('jax.numpy', 'numpy', 'math'):
+        T.ext_values[f'{mod}.pi'] = PI
+        T.externals[f'{mod}.minimum'] = elementwise(lambda a, b: z3.If(a <= b, a, b), 'minimum')
+        T.externals[f'{mod}.maximum'] = elementwise(lambda a, b: z3.If(a >= b, a, b), 'maximum')
+        T.externals[f'{mod}.abs'] = elementwise(lambda a: z3.If(a >= 0, a, -a), 'abs')
+
+    def clip(interp, x, min=None, max=None, **kw):      # noqa: A002
+        lo = kw.get('a_min', min)
+        hi = kw.get('a_max', max)
+        xs = [x] + [b for b in (lo, hi) if b is not None]
+
+        def fn(*ts):
+            t = ts[0]
+            i = 1
+            if lo is not None:
+                t = z3.If(t < ts[i], ts[i], t)
+                i += 1
+            if hi is not None:
+                t = z3.If(t > ts[i], ts[i], t)
+            return t
+        return elementwise(fn, 'clip')(interp, *xs)
+    T.externals['jax.numpy.clip'] = clip
+    T.externals['numpy.clip'] = clip
 
     @T.ext('jax.numpy.isscalar')
     def _isscalar(interp, v):
